@@ -79,8 +79,30 @@ end
 
 end
 
+theorem scanDigit_digit (c : Char) (h : isDigit c = true) :
+    c ≠ '_' ∧ scanDigit c = digitVal c ∧ scanDigit c < 10 := by
+  refine ⟨?_, ?_, ?_⟩
+  · intro hc; subst hc; revert h; decide
+  · simp [scanDigit, digitVal, h]
+  · have h' := h
+    simp only [isDigit, Bool.and_eq_true, decide_eq_true_eq] at h'
+    simp [scanDigit, h]; omega
+
+/-- on a string of decimal digits the digit loop of `nat.scan` computes the decimal value -/
+theorem scanDigits_digits : ∀ (l : Chars) (v n : Nat) (p : Char) (i : Bool), l.all isDigit = true →
+    scanDigits 10 l v n p i =
+      (l.foldl (fun v c => v * 10 + digitVal c) v, n + l.length, (if l = [] then p else '0'), i, [])
+  | [], v, n, p, i, _ => by simp [scanDigits]
+  | c :: r, v, n, p, i, h => by
+    have hc : isDigit c = true := by simp at h; exact h.1
+    have hr : r.all isDigit = true := by simp at h ⊢; exact h.2
+    obtain ⟨h1, h2, h3⟩ := scanDigit_digit c hc
+    have hlt : ¬ scanDigit c ≥ 10 := by omega
+    rw [scanDigits, if_neg h1, if_neg hlt, scanDigits_digits r _ _ _ _ hr, h2]
+    by_cases hre : r = [] <;> simp [hre] <;> omega
+
 /-- an RFC 8259 integer literal is read by `big.Int.SetString(lit, 0)` as its decimal
-    value: no leading zero, so never octal -/
+    value: no leading zero, so never octal, and no prefix letter or separator -/
 theorem goInt_json (lit : Chars) (h1 : isJsonUNum lit = true) (h2 : isIntLit lit = true) :
     goInt lit = some (decVal lit) := by
   replace h1 : scanUNumber lit = some [] := by simpa [isJsonUNum] using h1
@@ -88,20 +110,20 @@ theorem goInt_json (lit : Chars) (h1 : isJsonUNum lit = true) (h2 : isIntLit lit
   | nil => simp [isIntLit] at h2
   | cons c r =>
     have hall : (c :: r).all isDigit = true := by simpa [isIntLit] using h2
-    by_cases hc : c = '0'
-    · subst hc
+    have hnot0 : ¬ (c = '0' ∧ r ≠ []) := by
+      rintro ⟨hc, hr⟩
+      subst hc
       cases r with
-      | nil => simp [goInt, decVal, isDigit]
+      | nil => exact hr rfl
       | cons d r' =>
-        exfalso
         have hd : isDigit d = true := by simp at hall; exact hall.2.1
         have hdot : d ≠ '.' := by intro h; subst h; revert hd; decide
         have he : ¬ (d = 'e' ∨ d = 'E') := by
           rintro (h | h) <;> (subst h; revert hd; decide)
         simp [scanUNumber, scanInt, scanFrac, hdot, scanExp, he] at h1
-    · have hx : ¬ (c = '0' ∧ (r.head? = some 'x' ∨ r.head? = some 'X')) := fun h => hc h.1
-      have h0 : ¬ (c = '0' ∧ r ≠ []) := fun h => hc h.1
-      simp only [goInt, hx, h0, if_false, hall, if_true]
+    have hs := scanDigits_digits (c :: r) 0 0 '.' false hall
+    simp only [goInt, if_neg hnot0, hs]
+    simp [scanFinish, decVal]
 
 section
 variable {φ : Type} (kws : List Chars) (L : Leaf φ)
